@@ -749,20 +749,42 @@ def _krome_window_stores(ctx, pkg, fn):
         which = "tmin" if f.target == "temp_min" else "tmax"
         other = "tmax" if which == "tmin" else "tmin"
         W = (KROME, f.line)
-        # -- the column loop: for <keyword>, <field> in zip(<format keywords>, <fields of the line>)
-        lp = f.loops[-1] if f.loops else None
-        it = simp(lp.iter) if lp is not None else None
-        key = val = None
-        if it is not None and it[0] == "call" and it[1] == ("global", "zip") and len(it[2]) == 2 and not it[3]:
-            for a in it[2]:
-                a0 = strip_transparent(a)
-                if any(x == ("param", "react_string") for x in walk(a0)) and not any(isinstance(x, tuple) and x[:2] == ("attr", SELFP) for x in walk(a0)):
-                    val = ("elem", a0, lp.id)
-                elif any(isinstance(x, tuple) and len(x) == 3 and x[0] == "attr" and x[1] == SELFP and "format" in x[2] for x in walk(a0)):
-                    key = ("elem", a0, lp.id)
-        if key is None or val is None:
-            ctx.unrec("R4", f"KROME:{which}:column loop", W, "the store is not inside `for keyword, field in zip(<format keywords>, <fields of the line>)`")
+        # -- the column pairing, by role: the KEYWORD is what the guards of the store compare with "tmin" / "tmax"; the FIELD is the element
+        #    of the split line at the same position -- `for keyword, field in zip(keywords, fields)`, `keywords[i]` / `fields[i]`,
+        #    `for i, keyword in enumerate(keywords): fields[i]`
+        def pos_of(x):
+            """(sequence, position token) of an element of a sequence"""
+            x = simp(x)
+            if x[0] == "elem" and len(x) == 3:
+                return strip_transparent(simp(x[1])), ("loop", x[2])
+            if x[0] == "sub" and x[2][0] != "slice":
+                i_ = x[2]
+                return strip_transparent(simp(x[1])), (("loop", i_[2]) if i_[0] in ("idx", "elem") and len(i_) == 3 else i_)
+            return None
+        key = None
+        for g_, _ in f.guards:
+            for x in walk(simp(g_)):
+                if isinstance(x, tuple) and len(x) == 3 and x[0] == "cmp" and len(x[1]) == 1 and x[1][0] in ("Eq", "In") and len(x[2]) == 2:
+                    lits = [x[2][1][1]] if x[2][1][0] == "const" else [e[1] for e in x[2][1][1]] if x[2][1][0] in ("list", "tuple", "set") and all(e[0] == "const" for e in x[2][1][1]) else []
+                    if ("tmin" in lits or "tmax" in lits) and key is None:
+                        key = x[2][0]
+        kp = pos_of(key) if key is not None else None
+        if kp is None or not any(isinstance(x, tuple) and len(x) == 3 and x[0] == "attr" and x[1] == SELFP and "format" in x[2] for x in walk(kp[0])):
+            ctx.unrec("R4", f"KROME:{which}:column loop", W, "cannot find the format keyword the store is guarded by (an element of the format's keyword list compared with 'tmin' / 'tmax')")
             continue
+        # the field at the keyword's position: the one element of a sequence cut from the line that the stored value / the guards read
+        cands = {x for src in [f.value] + [g_ for g_, _ in f.guards] for x in walk(simp(src)) if isinstance(x, tuple) and x and x[0] in ("elem", "sub") and pos_of(x) is not None
+                 and any(y == ("param", "react_string") for y in walk(pos_of(x)[0])) and not any(isinstance(y, tuple) and y[:2] == ("attr", SELFP) for y in walk(pos_of(x)[0]))
+                 and any(isinstance(y, tuple) and len(y) == 5 and y[0] == "meth" and y[2] == "split" for y in walk(pos_of(x)[0]))}
+        paired = [x for x in cands if pos_of(x)[1] == kp[1]]
+        if len(paired) != 1:
+            if cands and not paired:
+                ctx.bad("R4", f"KROME:{which}:field", W, f"self.{f.target} is decoded from {show(sorted(cands, key=repr)[0])[:80]}, which is not the field at the position of the keyword {which!r}",
+                        found=show(sorted(cands, key=repr)[0])[:100])
+            else:
+                ctx.unrec("R4", f"KROME:{which}:column loop", W, "cannot pair the format keyword with one field of the line (expected zip(<keywords>, <fields>) or the same index into both)")
+            continue
+        val = paired[0]
         # -- guards: membership in a literal is the disjunction of equalities; `helper(..) is None` of a helper returning None on one arm only is that arm's condition
         def lit_set(x):
             return [e[1] for e in x[1]] if x[0] in ("list", "tuple", "set") and all(e[0] == "const" for e in x[1]) else None
@@ -1103,4 +1125,21 @@ BENIGN += [
                                                             {"file": T, "old": "        " + _LT + "\n        " + _UT + "\n" + _TR, "new": "        tranges = list(map(self._window, reactions))\n"}]},
     {"name": "guard-joined-through-filtering-generator", "file": T, "old": "        " + _LT + "\n        " + _UT + "\n" + _TR,
      "new": '        tranges = [\n            " && ".join(c for c in (f"Tgas>={r.temp_min}" if r.temp_min > 0 else "", f"Tgas<{r.temp_max}" if r.temp_max > 0 else "") if c)\n            for r in reactions\n        ]\n'},
+]
+# ---- wave 2: the KROME keyword / field pairing
+_K_ZIP = '            for key, value in zip(kwords, react_string.split(",")):\n'
+MUTANTS += [
+    {"name": "krome-columns-by-index-field-one-late", "file": KROME, "old": _K_ZIP,
+     "new": '            values = react_string.split(",")\n            for i in range(min(len(kwords), len(values)) - 1):\n                key, value = kwords[i], values[i + 1]\n', "rules": ["R4"]},
+]
+BENIGN += [
+    {"name": "krome-columns-by-index", "file": KROME, "old": _K_ZIP,
+     "new": '            values = react_string.split(",")\n            for i in range(min(len(kwords), len(values))):\n                key, value = kwords[i], values[i]\n'},
+    {"name": "krome-columns-enumerate-keywords", "file": KROME, "old": _K_ZIP,
+     "new": '            values = react_string.split(",")\n            for i, key in enumerate(kwords[: len(values)]):\n                value = values[i]\n'},
+    {"name": "krome-limit-helper-returning-none", "edits": [
+        {"file": KROME, "old": _K_CLS, "new": '    @staticmethod\n    def _limit(text):\n        if text.upper() in ("N", "NONE", "N/A", "NO", ""):\n            return None\n'
+         '        for opstr in ("<", ">", ".LE.", ".GE.", ".LT.", ".GT."):\n            text = text.replace(opstr, "")\n        return float(text.replace("d", "e"))\n\n' + _K_CLS},
+        {"file": KROME, "old": _K_ARMS_OLD, "new": '                elif key == "tmin":\n                    limit = self._limit(value)\n                    if limit is not None:\n                        self.temp_min = limit\n'
+         '                elif key == "tmax":\n                    limit = self._limit(value)\n                    if limit is not None:\n                        self.temp_max = limit\n'}]},
 ]
